@@ -25,6 +25,8 @@ fn dispatch(op: &str, args: &[Sexp]) -> String {
         "gds.write" => crate::gdsio::op_write(args),
         "gds.read" | "gds.c03" => crate::gdsio::op_read(args),
         "lefraw.import" => crate::props::c16::op_import(args),
+        "rawproto.export" => crate::props::c14::op_export(args),
+        "rawproto.import" => crate::props::c14::op_import(args),
         "tf.apply" => crate::props::c12::op_apply(args),
         "tf.general" => crate::props::c12::op_general(args),
         "raw.flatten" => crate::props::c12::op_flatten(args),
